@@ -64,6 +64,8 @@ pub enum Mode {
     Script(Vec<String>),
     /// real parallelism with seeded delays
     Free { seed: u64 },
+    /// the real teosd binary: API threads over HTTP / gRPC, the poll granted by the fake bitcoind, seeded start delays
+    Real { seed: u64 },
 }
 
 #[derive(Clone, Debug, PartialEq, Eq, PartialOrd, Ord)]
@@ -155,7 +157,7 @@ pub fn execute(sc: &Scenario, mode: &Mode, dir: &PathBuf) -> ExecResult {
             s.state(|st| st.script = Some(script.clone()));
             s
         }
-        Mode::Free { seed } => Sched::new(*seed, false, 0, 1, 300),
+        Mode::Free { seed } | Mode::Real { seed } => Sched::new(*seed, false, 0, 1, 300),
     };
     let mut chain = world.simchain();
     {
@@ -259,6 +261,106 @@ pub fn execute(sc: &Scenario, mode: &Mode, dir: &PathBuf) -> ExecResult {
         decisions: st.decisions.clone(),
         boot_failed,
     })
+}
+
+/// The scenario against a real teosd process (see `remote.rs`): the prepared database is put in place,
+/// teosd bootstraps on it, the pending chain change is applied, then the API threads (real HTTP / gRPC
+/// clients) and the poll run concurrently, each after a seeded delay of 0-4 ms. Nothing is scheduled:
+/// the interleaving is whatever the OS and teosd's runtime make of it.
+pub fn execute_real(sc: &Scenario, seed: u64, dir: &PathBuf) -> ExecResult {
+    use crate::remote::{panic_in, run_remote_session, FakeBitcoind, StopMode, TeosdOpts};
+    let mut world = sc.prep.world.fork();
+    let n = EXEC_SEQ.fetch_add(1, std::sync::atomic::Ordering::SeqCst);
+    let datadir = dir.join(format!("real-{n}"));
+    let _ = std::fs::remove_dir_all(&datadir);
+    std::fs::create_dir_all(datadir.join("regtest")).unwrap();
+    let db_path = datadir.join("regtest").join("teos_db.sql3");
+    std::fs::write(&db_path, &sc.prep.db).unwrap();
+    let cfg = TowerCfg { db_path: db_path.clone(), ..sc.prep.cfg.clone() };
+    let chain = Arc::new(world.simchain());
+    let btc = FakeBitcoind::start(chain, world.node.clone());
+    let mut rng = Rng::new(seed);
+    let delays: Vec<u64> = (0..sc.api.len() + 1).map(|_| rng.below(4000)).collect();
+    let mut log_start = 0usize;
+    let mut replies: BTreeMap<String, Vec<Vec<(String, String)>>> = BTreeMap::new();
+    let res = run_remote_session(&btc, &datadir, &cfg, &TeosdOpts::default(), StopMode::Kill, |s| {
+        match &sc.pending {
+            Pending::None => {}
+            Pending::Mine(b) => world.mine(b, 1),
+            Pending::Reorg(d, b) => world.reorg(*d, b, 1),
+        }
+        log_start = world.log.len();
+        if let crate::tower::Api::Remote(r) = &s.api {
+            r.call_timeout_ms.store(20_000, std::sync::atomic::Ordering::SeqCst);
+        }
+        let out: Vec<(String, Vec<Vec<(String, String)>>)> = std::thread::scope(|scope| {
+            let mut handles = Vec::new();
+            for (i, ops) in sc.api.iter().enumerate() {
+                let api = s.api.clone();
+                let world = &world;
+                let d = delays[i];
+                handles.push(scope.spawn(move || {
+                    std::thread::sleep(std::time::Duration::from_micros(d));
+                    (format!("api{i}"), ops.iter().map(|op| run_cop(world, &api, op)).collect::<Vec<_>>())
+                }));
+            }
+            let mut out = Vec::new();
+            std::thread::sleep(std::time::Duration::from_micros(delays[sc.api.len()]));
+            let st = if sc.poll {
+                match btc.grant_poll(std::time::Duration::from_secs(30), &mut || true) {
+                    Ok(()) => "done".to_string(),
+                    Err(e) => format!("STUCK {e}"),
+                }
+            } else {
+                "done".to_string()
+            };
+            out.push(("chain".to_string(), vec![vec![("status".to_string(), st)]]));
+            for h in handles {
+                out.push(h.join().unwrap_or(("?".into(), vec![vec![("status".into(), "JOIN-PANIC".into())]])));
+            }
+            out
+        });
+        out
+    });
+    let mut boot_failed = None;
+    let mut panics_seen: Vec<panics::PanicRecord> = Vec::new();
+    match res {
+        Ok(out) => {
+            if out.output.contains("Address already in use") {
+                boot_failed = Some("a listening port of teosd was taken by another process".into());
+            } else if let Some((loc, msg)) = panic_in(&out.output) {
+                panics_seen.push(panics::PanicRecord { thread: "teosd".into(), function: "teosd".into(), message: msg, location: loc });
+            }
+            for (k, v) in out.value {
+                replies.insert(k, v);
+            }
+        }
+        Err(e) => boot_failed = Some(format!("{e:?}")),
+    }
+    let snap = Snap::read(&db_path).unwrap_or_default();
+    let mut rpcs: Vec<String> = world
+        .log
+        .since(log_start)
+        .iter()
+        .filter_map(|e| match e {
+            Ev::Send { txid, verdict } => Some(format!("send {} {verdict:?}", &txid.to_string()[..8])),
+            _ => None,
+        })
+        .collect();
+    rpcs.sort();
+    btc.shutdown();
+    let _ = std::fs::remove_dir_all(&datadir);
+    ExecResult {
+        outcome: Outcome { replies, db: canon_db(&snap), rpcs },
+        stuck: None,
+        panics: panics_seen,
+        schedule_hash: seed,
+        switches: 0,
+        edges: BTreeSet::new(),
+        pairs: BTreeSet::new(),
+        decisions: Vec::new(),
+        boot_failed,
+    }
 }
 
 /// All interleavings of the chain thread's segments with the API threads (one segment each).
@@ -537,7 +639,7 @@ fn stuck_sig(s: &Stuck) -> String {
     }
 }
 
-pub fn run(seed: u64, shard: u64, nshards: u64, schedules_per_scenario: u64, free_runs: u64, only: Option<(String, Mode)>, rep: &mut Report) {
+pub fn run(seed: u64, shard: u64, nshards: u64, schedules_per_scenario: u64, free_runs: u64, real_runs: u64, only: Option<(String, Mode)>, rep: &mut Report) {
     panics::install();
     let dir = PathBuf::from(format!("/dev/shm/tv-e2-{}", std::process::id()));
     std::fs::create_dir_all(&dir).unwrap();
@@ -604,13 +706,19 @@ pub fn run(seed: u64, shard: u64, nshards: u64, schedules_per_scenario: u64, fre
                 for k in 0..free_runs {
                     v.push(Mode::Free { seed: seed.wrapping_mul(77).wrapping_add(shard * 1000 + si as u64 * 100 + k) });
                 }
+                for k in 0..real_runs {
+                    v.push(Mode::Real { seed: seed.wrapping_mul(91).wrapping_add(shard * 100_000 + si as u64 * 1000 + k) });
+                }
                 v
             }
         };
         let _ = nshards;
         for m in modes {
-            let r = execute(sc, &m, &dir);
-            let replay = json!({"engine":"e2","seed":seed,"shard":shard,"scenario":sc.name,"mode": match &m { Mode::Pct{seed,preemptions,horizon} => json!({"pct":[seed,preemptions,horizon]}), Mode::Free{seed} => json!({"free":seed}), Mode::Script(s) => json!({"script":s}) }});
+            let r = match &m {
+                Mode::Real { seed } => execute_real(sc, *seed, &dir),
+                _ => execute(sc, &m, &dir),
+            };
+            let replay = json!({"engine":"e2","seed":seed,"shard":shard,"scenario":sc.name,"mode": match &m { Mode::Pct{seed,preemptions,horizon} => json!({"pct":[seed,preemptions,horizon]}), Mode::Free{seed} => json!({"free":seed}), Mode::Real{seed} => json!({"real":seed}), Mode::Script(s) => json!({"script":s}) }});
             all_edges.extend(r.edges.iter().cloned());
             all_pairs.extend(r.pairs.iter().cloned());
             for pid in ["C10", "C11"] {
@@ -618,7 +726,10 @@ pub fn run(seed: u64, shard: u64, nshards: u64, schedules_per_scenario: u64, fre
                 p.eval();
                 p.count(&format!("executions[{}]", sc.name), 1);
                 p.count("context_switches", r.switches);
-                if r.switches > 0 || matches!(m, Mode::Free { .. }) {
+                if let Mode::Real { .. } = m {
+                    p.count(&format!("real_teosd_executions[{}]", sc.name), 1);
+                }
+                if r.switches > 0 || matches!(m, Mode::Free { .. } | Mode::Real { .. }) {
                     p.nontrivial(fnv(format!("{}:{}", sc.name, r.schedule_hash).as_bytes()));
                 }
                 p.sample(|| json!({"scenario": sc.name, "what": sc.desc, "mode": format!("{m:?}"), "schedule": r.decisions.iter().take(60).collect::<Vec<_>>()}));
@@ -637,6 +748,13 @@ pub fn run(seed: u64, shard: u64, nshards: u64, schedules_per_scenario: u64, fre
                 c11_hit = true;
                 rep.p("C11").violation(format!("C11:panic:fn={}:msg={}", p.function, panics::message_class(&p.message)), format!("scenario {} ({}), {m:?}: thread {} panicked at {} in {}: {}", sc.name, sc.desc, p.thread, p.location, p.function, p.message), replay.clone());
             }
+            if let Mode::Real { .. } = m {
+                let no_answer: Vec<String> = r.outcome.replies.iter().filter(|(_, ops)| ops.iter().any(|f| f.iter().any(|(k, v)| (k == "status" && (v.contains("DeadlineExceeded") || v.starts_with("STUCK")))))).map(|(t, _)| t.clone()).collect();
+                if !no_answer.is_empty() {
+                    c11_hit = true;
+                    rep.p("C11").violation(format!("C11:no-progress:real-teosd:{}", sc.name), format!("scenario {} ({}), real teosd: {no_answer:?} got no answer within 20 s (requests and the block event ran concurrently): {:?}", sc.name, sc.desc, r.outcome.replies), replay.clone());
+                }
+            }
             if c11_hit {
                 // the outcome of an execution that deadlocked / aborted is not comparable
                 continue;
@@ -647,6 +765,12 @@ pub fn run(seed: u64, shard: u64, nshards: u64, schedules_per_scenario: u64, fre
                 rep.p("C10").violation(format!("C10:not-linearizable:{}:{parts}", sc.name), format!("scenario {} ({}), {m:?}: the outcome equals none of the {} sequential outcomes. {detail}", sc.name, sc.desc, refs.len()), replay);
             } else {
                 rep.p("C10").count("outcomes_matched", 1);
+                if let Mode::Real { .. } = m {
+                    // which sequential order did the real execution look like?
+                    let idx = refs.iter().position(|o| *o == r.outcome).unwrap_or(0);
+                    rep.p("C10").nontrivial(fnv(format!("real:{}:{idx}", sc.name).as_bytes()));
+                    rep.p("C10").count(&format!("real_teosd_matched_reference[{}#{idx}]", sc.name), 1);
+                }
             }
         }
     }
